@@ -1298,8 +1298,8 @@ impl RustGenerator {
                     ));
                 }
                 let dest = self.reg_name(dst)?;
-                let left_expr = self.value_array_expr(left)?;
-                let right_expr = self.value_array_expr(right)?;
+                let left_expr = self.phi_input_expr(func, left)?;
+                let right_expr = self.phi_input_expr(func, right)?;
                 writer.line(format!("if pred_bb == {}usize {{", preds[0]))?;
                 writer.indented(1, |writer| writer.line(format!("{dest} = {left_expr};")))?;
                 writer.line(format!("}} else if pred_bb == {}usize {{", preds[1]))?;
@@ -1351,7 +1351,7 @@ impl RustGenerator {
                 writer.line(format!("{dest} = match pred_bb {{"))?;
                 writer.indented(1, |writer| {
                     for (pred, input) in preds.iter().zip(inputs.iter()) {
-                        let expr = self.value_array_expr(input)?;
+                        let expr = self.phi_input_expr(func, input)?;
                         writer.line(format!("{pred}usize => {expr},"))?;
                     }
                     writer.line(format!(
@@ -2569,6 +2569,23 @@ impl RustGenerator {
                 "value is not representable as a fixed-size word array in the initial Rust backend: {:?}",
                 value
             )),
+        }
+    }
+
+    /// Phi input as a word array. A single-word tuple/record field (a `GetElement` register) is an
+    /// address; the merged register is used as a value, so it receives the element the address points to.
+    fn phi_input_expr(&self, func: &Function, value: &VPtr) -> Result<String, String> {
+        match value.as_ref() {
+            Value::Register(reg)
+                if self
+                    .resolve_register_getelement_type(func, *reg)
+                    .is_some_and(|ty| {
+                        ty.word_size() == 1 && !self.is_deepcopy_aggregate_type(ty)
+                    }) =>
+            {
+                Ok(format!("[{}]", self.scalar_word_expr(func, value)?))
+            }
+            _ => self.value_array_expr(value),
         }
     }
 
